@@ -134,7 +134,10 @@ class SymBackend:
             core.CTX.assume.append(("cmp", "=", Poly({((lv, 2),): 1}) + others - ONE))
             for i in range(d):
                 for j in range(d):
-                    arr[i, j] = psi[0][i] * psi[0][j].conj() + psi[1][i] * psi[1][j].conj()
+                    if i == j:
+                        arr[i, j] = core.SSq([psi[0][i], psi[1][i]])
+                    else:
+                        arr[i, j] = psi[0][i] * psi[0][j].conj() + psi[1][i] * psi[1][j].conj()
             ids = [next(iter(p.vars())) for p in vars_]
             core.CTX.spheres.append(ids)
 
